@@ -23,13 +23,17 @@ DECIMAL_GRID = [0.1, 0.2, 0.3, 0.7, 2.5, 5.0]
 
 @st.composite
 def truth_records(draw, min_storms=4, max_storms=10, noise=False,
-                  dts=None, curve_len=None, et_varying=True):
-    dt = draw(st.sampled_from(dts or gen_records.STEPS))
-    tz = draw(st.sampled_from(gen_records.ZONES))
-    t0 = gen_records.T0_BASE + draw(st.integers(-2000, 200000)) * dt
-    sy = draw(st.sampled_from(SY))
-    thr_units = draw(st.sampled_from([1, 2, 3, 4, 8]))
-    k_s = draw(st.sampled_from([1, 2, 4]))
+                  dts=None, curve_len=None, et_varying=True, fixed=None,
+                  top_range=(-200, 800)):
+    fixed = fixed or {}
+    dt = fixed.get('dt') or draw(st.sampled_from(dts or gen_records.STEPS))
+    tz = fixed.get('tz') or draw(st.sampled_from(gen_records.ZONES))
+    t0 = fixed.get('t0') or (
+        gen_records.T0_BASE + draw(st.integers(-2000, 200000)) * dt)
+    sy = fixed.get('sy') or draw(st.sampled_from(SY))
+    thr_units = fixed.get('thr_units') or draw(
+        st.sampled_from([1, 2, 3, 4, 8]))
+    k_s = fixed.get('k_s') or draw(st.sampled_from([1, 2, 4]))
     # drizzle intensity carrying one lattice unit (1/8 mm) in one step
     drizzle = sy * 3600.0 / (8.0 * dt)
     s = k_s * drizzle
@@ -38,7 +42,7 @@ def truth_records(draw, min_storms=4, max_storms=10, noise=False,
     M = curve_len or draw(st.integers(40, 90))
     dec_max = draw(st.sampled_from([8, 16, 24, 40]))
     decs = [draw(st.integers(2 if noise else 1, dec_max)) for _ in range(M)]
-    top = draw(st.integers(-200, 800))
+    top = draw(st.integers(*top_range))
     r = [top]
     for d in decs:
         r.append(r[-1] - d)
@@ -117,10 +121,53 @@ def truth_records(draw, min_storms=4, max_storms=10, noise=False,
         dt, t0, tz, rain, z, 0, [], [], set(), et_vals, s, j,
         {'gen': 'truth', 'thr_units': thr_units})
     case['truth'] = {'r_units': r, 'sy': sy, 'recessions': intervals,
-                     'rises': rises, 'noise': bool(noise)}
+                     'rises': rises, 'noise': bool(noise), 'k_s': k_s}
     return case
 
 
 def truth_levels(case):
     """Level (mm) of every sample, as exact Fractions."""
     return [F(v) for _, v in case['wl']]
+
+
+@st.composite
+def far_group_records(draw, noise=True):
+    """A main planted record followed, after a gap in the water-level
+    record, by a smaller planted record in a level band far above: its
+    intervals share no water level with the main body, directly or through
+    a chain of overlaps (the level moved while the logger was off)."""
+    main = draw(truth_records(noise=noise, min_storms=5, max_storms=9))
+    fixed = {'dt': main['dt'], 'tz': main['tz'], 't0': main['t0'],
+             'sy': main['truth']['sy'], 'thr_units': main['thr_units'],
+             'k_s': main['truth']['k_s']}
+    far = draw(truth_records(noise=noise, min_storms=1, max_storms=3,
+                             curve_len=24, fixed=fixed,
+                             top_range=(6000, 8000)))
+    gap = draw(st.integers(2, 5))
+    dt = main['dt']
+    n_main = max(i for i, _ in main['rain']) + 1
+    shift = n_main + gap
+    rain = list(main['rain']) + [[n_main + i, 0.0] for i in range(gap)] + [
+        [i + shift, v] for i, v in far['rain']]
+    wl = list(main['wl']) + [[off + shift * dt, v] for off, v in far['wl']]
+    lo = -2
+    hi = max(i for i, _ in rain) + 4
+    et_vals = [v for _, v in main['et']][:7] or [0.125]
+    et = [[i, et_vals[(i - lo) % len(et_vals)]] for i in range(lo, hi)]
+    case = dict(main)
+    case.update({'rain': rain, 'wl': wl, 'et': et, 'gen': 'truth-far',
+                 'far_first_sample_s': shift * dt})
+    if draw(st.booleans()):
+        # the far band first: the main body is not the first component
+        # met in time order
+        n_far = max(i for i, _ in far['rain']) + 1
+        shift = n_far + gap
+        rain = list(far['rain']) + [[n_far + i, 0.0] for i in range(gap)] + [
+            [i + shift, v] for i, v in main['rain']]
+        wl = list(far['wl']) + [[off + shift * dt, v]
+                                for off, v in main['wl']]
+        hi = max(i for i, _ in rain) + 4
+        et = [[i, et_vals[(i - lo) % len(et_vals)]] for i in range(lo, hi)]
+        case.update({'rain': rain, 'wl': wl, 'et': et,
+                     'far_first_sample_s': 0})
+    return case
